@@ -16,6 +16,7 @@ class _RT:
     fval = staticmethod(core.fval)
     rt_get = staticmethod(core.rt_get)
     rt_set = staticmethod(core.rt_set)
+    setitem = staticmethod(core.setitem)
     rt_len = staticmethod(core.rt_len)
     rt_range = staticmethod(core.rt_range)
     rt_enumerate = staticmethod(core.rt_enumerate)
@@ -86,6 +87,16 @@ class Rewriter(ast.NodeTransformer):
             return ast.Call(func=_rt("rt_" + f.attr), args=node.args, keywords=[])
         if isinstance(root, ast.Name) and root.id == "os" and isinstance(f, ast.Attribute):
             node.args = [ast.Call(func=_rt("concrete_if_unique"), args=[a], keywords=[]) for a in node.args]
+        return node
+
+    def visit_Assign(self, node):
+        self.generic_visit(node)
+        # x[k] = v  ->  _symrt_.setitem(x, k, v)   (single target, plain index: dict stores with symbolic keys)
+        if len(node.targets) == 1 and isinstance(node.targets[0], ast.Subscript) and not isinstance(node.targets[0].slice, ast.Slice):
+            t = node.targets[0]
+            value = ast.Subscript(value=t.value, slice=t.slice, ctx=ast.Load())
+            call = ast.Call(func=_rt("setitem"), args=[t.value, t.slice, node.value], keywords=[])
+            return _at(ast.Expr(value=call), node)
         return node
 
     def visit_Import(self, node):
